@@ -7,7 +7,7 @@ Inputs
   * the primitive operation lists of the first Hall setting of each type, printed by the compiled model
     (`moyo_model`, command `hall`), exactly the lists the kernel theorems talk about,
   * tools/c16g_specs.json: for every arithmetic class a list of *counting systems* (`Moyo.TypeInvariant.Spec`)
-    and of *rotation-subset systems* that were found by search (tools/c16g_search.py) to separate the types
+    and of *rotation-subset systems* that were found by search (tools/typesearch/, see the README there) to separate the types
     of the class.  They are certificates: nothing about them is trusted.
 
 Outputs (rewritten only when the content changes)
@@ -293,14 +293,14 @@ def main():
         json.dump({kind: chunks for kind, _, _, chunks, _ in plan}, f)
 
 
-def write_module(rel, text):
+def write_module(rel, text, tag="translate_c16g.py"):
     p = os.path.join(LEAN, rel)
     os.makedirs(os.path.dirname(p), exist_ok=True)
     old = open(p).read() if os.path.exists(p) else None
     if old != text:
         with open(p, "w") as f:
             f.write(text)
-        print(f"translate_c16g.py: wrote {rel}")
+        print(f"{tag}: wrote {rel}")
 
 
 if __name__ == "__main__":
